@@ -107,6 +107,18 @@ Theorem C05_app_judgement_transfer : forall sc t, JudgeC05P.profile_C05b sc = tr
 Proof. exact JudgeC05P.C05_app_judgement_transfer. Qed.
 
 
+(* ---- source tie, third wave (DESIGN 11.7): the input reader / Negate / SwizzleAxis regenerated from the Rust source ---- *)
+From BEI Require Generated.ReaderSrc Generated.ModifSrc Proofs.SrcTie3P.
+Theorem C05_source_consume : forall r c dev i, ReaderSrc.InputReader_consume_src (SrcTie3P.reader_of r c dev) i = SrcTie3P.reader_of r (Reader.consume c dev i) dev.
+Proof. exact SrcTie3P.InputReader_consume_tie. Qed.
+
+Theorem C05_source_reset : forall x, ReaderSrc.ConsumedInput_reset_src x = SrcTie3P.consumed_of Reader.consumed_reset.
+Proof. exact SrcTie3P.ConsumedInput_reset_tie. Qed.
+
+Theorem C05_source_reader_value : forall r c dev i, ReaderSrc.InputReader_value_src (SrcTie3P.reader_of r c dev) i = Reader.reader_value r c dev i.
+Proof. exact SrcTie3P.InputReader_value_tie. Qed.
+
+
 Print Assumptions C05_consume_hides.
 Print Assumptions C05_consume_frame.
 Print Assumptions C05_consume_all_hides.
@@ -121,3 +133,6 @@ Print Assumptions C05_every_read_of_a_frame.
 Print Assumptions C05_every_read_of_an_update.
 Print Assumptions C05_app_judgement_sound.
 Print Assumptions C05_app_judgement_transfer.
+Print Assumptions C05_source_consume.
+Print Assumptions C05_source_reset.
+Print Assumptions C05_source_reader_value.
